@@ -105,7 +105,11 @@ class Real:
         self.case = case
         self.d = 3
         # both run-length-encoding ledgers (PRV is PrivacyEngine's default); GDP refuses a changing sigma
-        self.acct = PRVAccountant() if case.get("acct") == "prv" else RDPAccountant()
+        if case.get("acct") == "gdp":
+            from opacus.accountants import GaussianAccountant
+            self.acct = GaussianAccountant()
+        else:
+            self.acct = PRVAccountant() if case.get("acct") == "prv" else RDPAccountant()
         self.build(first=True)
 
     def build(self, first):
@@ -198,6 +202,28 @@ def detect_variant(ctx):
     return "repaired" if out[0] == 8.0 else "asCoded", out[0]
 
 
+def gdp_ledger_oracle(rng):
+    """The GDP accountant keeps ONE (sigma, q) run: a step with a scheduled sigma other than the recorded one has to be refused
+    (ValueError) – or recorded with the value in force; it must never be merged into the run under the old value."""
+    ns = ("exp", rng.choice([0.5, 0.8, 1.25])) if rng.random() < 0.5 else ("step", rng.choice([0.5, 0.9]), 1)
+    case = {"sigma0": rng.choice([1.0, 1.5, 2.0]), "c0": 1.0, "ns": ns, "cs": ("none",), "ops": [], "acct": "gdp"}
+    r = Real(case)
+    r.do("opt")
+    for _ in range(rng.randint(1, 3)):
+        r.do("ns")
+    live = r.live()[0]
+    n0 = sum(h[2] for h in r.acct.history)
+    try:
+        r.do("opt")
+    except (ValueError, AssertionError):
+        return None          # refused: fail-stop, nothing mis-recorded
+    hist = [(float(a), float(b), int(n)) for a, b, n in r.acct.history]
+    if sum(h[2] for h in hist) == n0 + 1 and not any(abs(h[0] - live) <= 1e-12 for h in hist):
+        return ("C17:value-in-force:gdp-ledger", f"GaussianAccountant: a step noised with the scheduled sigma {live} was recorded in the ledger {hist} (initial sigma {case['sigma0']}, schedule {ns})",
+                {"failing_input": {"oracle": "gdp-ledger", "case": case}})
+    return None
+
+
 def resume_oracle(case):
     """Property oracle: a restored scheduler must continue the uninterrupted trajectory."""
     if "restore" not in case["ops"]:
@@ -264,8 +290,8 @@ def closed_form_oracle(case):
     c = dict(case, ops=[o for o in case["ops"] if o not in ("save", "restore")])
     r = Real(c)
     kn = kc = 0
-    for o in c["ops"]:
-        out = r.do(o)
+    for o in [None] + list(c["ops"]):
+        out = r.live() if o is None else r.do(o)     # o is None: right after construction (k = 0 of every schedule)
         kn += o == "ns"
         kc += o == "cs"
 
@@ -322,11 +348,23 @@ def run(ctx):
             ctx.count("search:closed-form")
             if res:
                 ctx.property_failure(res[0], res[1], dict(res[2], failing_input=c))
+        for i in range(ctx.n(6, 60)):
+            res = gdp_ledger_oracle(ctx.rng)
+            ctx.count("search:gdp-ledger")
+            if res:
+                ctx.property_failure(res[0], res[1], res[2])
 
 
 def replay(ctx, rp):
     with rig.default_dtype(torch.float64):
         c = rp.get("failing_input") or rp.get("case")
+        if c.get("oracle") == "gdp-ledger":
+            import random
+            res = next((r for r in (gdp_ledger_oracle(random.Random(k)) for k in range(40)) if r), None)
+            print(("REPRODUCED: " + res[0] + " " + res[1]) if res else "not reproduced on this tree")
+            if res:
+                ctx.violations.append(res[0])
+            return
         c = dict(c, ns=tuple(c["ns"]), cs=tuple(c["cs"]))
         for orc in (resume_oracle, closed_form_oracle):
             res = orc(c)
